@@ -30,7 +30,7 @@ from pybrops.breed.prot.mate import util as putil
 from pybrops.core.util import mate as cutil
 
 PROP = "C01"
-RUNS = {"quick": 24000, "thorough": 500000}
+RUNS = {"quick": 60000, "thorough": 500000}
 WALL = {"quick": 150, "thorough": 1500}
 RULE = ("scenario = founders with provenance codes (1-10 taxa, 1-16 markers, 1-3 chromosomes, xoprob with exact 0/0.5), "
         "one protocol object, 1-3 mate() calls (cross table incl. selfs/repeats, scalar or per-cross nmating/nprogeny incl. "
